@@ -4,6 +4,11 @@ InterpKernels   sigpy/interp.py `_spline_kernel`: a function whose body is an if
                 `return <expr>` over the rationals  ->  `Gen.splineKernel (x order : Rat) : Rat`.
                 (`_kaiser_bessel_kernel` needs sqrt/exp: it is NOT translated; it is checked against
                 scipy.special.i0 by the C07 search oracle and used as-is by the correspondence.)
+InterpWrappers  sigpy/interp.py `interpolate` / `gridding` (the Python wrappers around the numba loop nests): every
+                statement of their bodies -> one `let` of `Gen.interpolateW` / `Gen.griddingW` (shapes as `List Int`
+                with Python slice / index / repetition semantics of Model/C07Py.lean, the `np.isscalar` branches as a
+                `match` on `Bc`, the dispatch `TABLE[kernel][ndim - 1]` as `pyGet?` into `Gen.interpolateTable` /
+                `Gen.griddingTable`, which list the loop nests returned by `_get_interpolate` / `_get_gridding`).
 NufftFormulas   sigpy/fourier.py: the integer / rational formulas of the nufft pipeline
                 (`_get_oversamp_shape`, `_scale_coord`, `_apodize` centre and grid length, the two
                 normalisations and the `width**ndim` division of `nufft` / `nufft_adjoint`).
@@ -368,7 +373,305 @@ def gen_nufft_formulas(ctx=None):
     return "\n".join(out)
 
 
+# ---- InterpWrappers ---------------------------------------------------------------------------
+# The Python wrappers `interpolate` / `gridding`: every statement of their bodies is translated, in
+# source order, into one `let` of a Lean `Option` do-block (`none` = Python raises):
+#
+#   n = <int expr>                         let n : Int := ..        (`L[k]` at top level: `let n ← pyGet? L k`)
+#   s = <shape expr>                       let s : List Int := ..
+#   xp = backend.get_array_module(input)   (backend selection: only the `xp == np` branch is modelled)
+#   isreal = np.issubdtype(..)             (used by the cupy branch only; the name stays unknown to the translator)
+#   A = A.reshape(<shape expr>)            let A_shape := <new>   + the pair (old, new) recorded in `reshapes`
+#   output = xp.zeros(<shape expr>, dtype=input.dtype)      let output_shape := ..   (zero-initialised buffer)
+#   if np.isscalar(P): P = xp.array(<list expr>, coord.dtype) else: P = xp.array(P, coord.dtype)
+#                                          let P : List Rat := match P with | .scalar P => .. | .perAxis P => ..
+#   if xp == np: TABLE[kernel][<int expr>](output, input, coord, width, param) else: <cupy, not modelled>
+#                                          let (nest, acc) ← pyGet? (<table of loop nests>) <int expr>; entries := nest ..
+#   return output.reshape(<shape expr>)    resultShape
+#
+# shape / list expressions: `X.shape`, names, `list(e)`, `tuple(e)`, `e[a:b]`, `[e1, .., en]`, `e + e`,
+# `e * n`, `n * e`;  int expressions: py2lean's subset + `util.prod(e)`, `len(e)`.
+# The table `TABLE[kernel]` is resolved through the module-level `TABLE[kernel] = _get_X(kernel)` and the
+# `return f1, f2, f3` of `_get_X`.  Anything else raises `Unsupported`.
+ILIST, RLIST, BC = "ilist", "rlist", "bc"
+_NESTS = dict([("_interpolate%d" % d, "interp%d" % d) for d in (1, 2, 3)] + [("_gridding%d" % d, "grid%d" % d) for d in (1, 2, 3)])
+
+W_HEADER = ("/- GENERATED by harness/translate/gen_c07.py from %s — do not edit; regenerated on every check. -/\n"
+            "import SigpyVerif.Model.Py\nimport SigpyVerif.Model.Apply\nimport SigpyVerif.Model.C07Py\nimport SigpyVerif.Gen.Interp\n"
+            "set_option linter.unusedVariables false\nnamespace SigpyVerif.Gen\nopen SigpyVerif SigpyVerif.C07\n\n")
+
+
+class _WExpr(T.Expr):
+    """int expressions of the wrappers; `self.types` maps names to INT | RAT | ILIST | RLIST | BC,
+    `self.arrays_w` is the set of array names (whose `.shape` is the Lean variable `<name>_shape`)."""
+
+    def __init__(self, types, arrays_w):
+        super().__init__({})
+        self.types, self.arrays_w = types, arrays_w
+
+    def e_Name(self, e):
+        t = self.types.get(e.id)
+        if t in (T.INT, T.RAT):
+            return (T.nm(e.id), t)
+        raise U("name %s is not a scalar here (%s)" % (e.id, t))
+
+    def e_Call(self, e):
+        f = e.func
+        if isinstance(f, ast.Attribute) and f.attr == "prod" and isinstance(f.value, ast.Name) and f.value.id == "util" \
+                and len(e.args) == 1 and not e.keywords:
+            return ("(shapeProd %s)" % self.lst(e.args[0], T.INT), T.INT)
+        if isinstance(f, ast.Name) and f.id == "len" and len(e.args) == 1 and not e.keywords:
+            return ("((%s).length : Int)" % self.lst(e.args[0], None), T.INT)
+        if isinstance(f, ast.Name) and f.id == "int" and len(e.args) == 1:
+            return super().e_Call(e)
+        raise U("call %s" % ast.unparse(e)[:60])
+
+    def e_Subscript(self, e):
+        raise U("subscript inside an expression: %s" % ast.unparse(e)[:60])
+
+    def int_(self, e):
+        s, t = self.tr(e)
+        if t != T.INT:
+            raise U("not an int: %s" % ast.unparse(e)[:60])
+        return s
+
+    def lst(self, e, want):
+        """list-valued expression -> Lean `List Int` (want=INT) / `List Rat` (want=RAT) / either (None)"""
+        lt = {T.INT: ILIST, T.RAT: RLIST}
+        if isinstance(e, ast.Attribute) and e.attr == "shape" and isinstance(e.value, ast.Name) and e.value.id in self.arrays_w:
+            if want == T.RAT:
+                raise U("shape used as a list of floats")
+            return e.value.id + "_shape"
+        if isinstance(e, ast.Name):
+            t = self.types.get(e.id)
+            if t in (ILIST, RLIST) and (want is None or t == lt[want]):
+                return T.nm(e.id)
+            raise U("name %s is not a %s list here (%s)" % (e.id, want, t))
+        if isinstance(e, ast.Call) and isinstance(e.func, ast.Name) and e.func.id in ("list", "tuple") \
+                and len(e.args) == 1 and not e.keywords:
+            return self.lst(e.args[0], want)
+        if isinstance(e, (ast.List, ast.Tuple)):
+            if want is None:
+                raise U("list literal of unknown element type")
+            els = []
+            for x in e.elts:
+                s, t = self.tr(x)
+                els.append(T._cast(s, t, want))
+            return "[" + ", ".join(els) + "]"
+        if isinstance(e, ast.BinOp) and isinstance(e.op, ast.Add):
+            return "(%s ++ %s)" % (self.lst(e.left, want), self.lst(e.right, want))
+        if isinstance(e, ast.BinOp) and isinstance(e.op, ast.Mult):
+            for l, n in ((e.left, e.right), (e.right, e.left)):
+                try:
+                    ns = self.int_(n)
+                except U:
+                    continue
+                return "(pyRepeat %s %s)" % (self.lst(l, want), ns)
+            raise U("list repetition %s" % ast.unparse(e)[:60])
+        if isinstance(e, ast.Subscript) and isinstance(e.slice, ast.Slice):
+            sl = e.slice
+            if sl.step is not None:
+                raise U("slice step")
+            base = self.lst(e.value, want)
+            if sl.lower is None and sl.upper is None:
+                return base
+            if sl.lower is None:
+                return "(pySliceTo %s %s)" % (base, self.int_(sl.upper))
+            if sl.upper is None:
+                return "(pySliceFrom %s %s)" % (base, self.int_(sl.lower))
+            return "(pySlice %s %s %s)" % (base, self.int_(sl.lower), self.int_(sl.upper))
+        raise U("list expression %s" % ast.unparse(e)[:80])
+
+
+def _is_call(e, owner, attr):
+    return (isinstance(e, ast.Call) and isinstance(e.func, ast.Attribute) and e.func.attr == attr
+            and isinstance(e.func.value, ast.Name) and e.func.value.id == owner)
+
+
+def _nest_table(tree, table):
+    """`TABLE[kernel] = _get_X(kernel)` at module level (inside `for kernel in KERNELS`) and the
+    `return f1, f2, ..` of `_get_X` -> [Lean loop-nest names]"""
+    getter = None
+    for n in tree.body:
+        if isinstance(n, ast.For) and isinstance(n.target, ast.Name) and n.target.id == "kernel" \
+                and isinstance(n.iter, ast.Name) and n.iter.id == "KERNELS":
+            for st in n.body:
+                if isinstance(st, ast.Assign) and len(st.targets) == 1 and ast.unparse(st.targets[0]) == "%s[kernel]" % table:
+                    v = st.value
+                    if not (isinstance(v, ast.Call) and isinstance(v.func, ast.Name) and len(v.args) == 1
+                            and isinstance(v.args[0], ast.Name) and v.args[0].id == "kernel" and not v.keywords):
+                        raise U("%s[kernel] = %s" % (table, ast.unparse(v)))
+                    if getter is not None:
+                        raise U("%s[kernel] assigned twice" % table)
+                    getter = v.func.id
+    inits = [n for n in tree.body if isinstance(n, ast.Assign) and ast.unparse(n.targets[0]) == table]
+    if getter is None or len(inits) != 1 or ast.unparse(inits[0].value) != "{}":
+        raise U("kernel table %s not found / not initialised as {}" % table)
+    others = [n for n in ast.walk(tree) if isinstance(n, (ast.Assign, ast.AugAssign, ast.Delete))
+              and any(isinstance(t, ast.Subscript) and isinstance(t.value, ast.Name) and t.value.id == table
+                      for t in (n.targets if hasattr(n, "targets") else [n.target]))]
+    if len(others) != 1:
+        raise U("%s is modified in %d places" % (table, len(others)))
+    fn = T.find_function(tree, getter)
+    rets = [n for n in fn.body if isinstance(n, ast.Return)]
+    if len(rets) != 1 or fn.body[-1] is not rets[0] or not isinstance(rets[0].value, ast.Tuple):
+        raise U("%s does not end in `return f1, f2, ..`" % getter)
+    names = []
+    inner = {n.name for n in fn.body if isinstance(n, ast.FunctionDef)}
+    for x in rets[0].value.elts:
+        if not (isinstance(x, ast.Name) and x.id in _NESTS and x.id in inner):
+            raise U("%s returns %s" % (getter, ast.unparse(x)))
+        names.append(_NESTS[x.id])
+    return getter, names
+
+
+def _wrapper(tree, fname, lean, args, table_name):
+    """translate one wrapper; returns Lean source"""
+    fn = T.find_function(tree, fname)
+    got = [a.arg for a in fn.args.args]
+    if got != args or fn.args.vararg or fn.args.kwarg or fn.args.kwonlyargs:
+        raise U("%s signature changed: %s" % (fname, got))
+    types = {"width": BC, "param": BC}
+    arrays_w = {"input", "coord"}
+    if "shape" in args:
+        types["shape"] = ILIST
+    ex = _WExpr(types, arrays_w)
+    zeroed, skipped, xp_ok = set(), set(), False
+    lets, reshapes = [], []
+    call = None
+    result = None
+    body = [s for s in fn.body if not (isinstance(s, ast.Expr) and isinstance(s.value, ast.Constant))]
+    for k, st in enumerate(body):
+        if result is not None:
+            raise U("%s: code after return" % fname)
+        if isinstance(st, ast.Return):
+            v = st.value
+            if not (_is_call(v, "output", "reshape") and len(v.args) == 1 and not v.keywords and "output" in zeroed and call):
+                raise U("%s returns %s" % (fname, ast.unparse(v) if v else None))
+            new = ex.lst(v.args[0], T.INT)
+            result = new
+            reshapes.append("(output_shape, %s)" % new)
+            continue
+        if isinstance(st, ast.Assign) and len(st.targets) == 1 and isinstance(st.targets[0], ast.Name):
+            tgt, v = st.targets[0].id, st.value
+            if call is not None and (tgt in arrays_w or tgt in ("xp", "isreal") or types.get(tgt) in (BC, RLIST)):
+                raise U("%s: array / argument rebound after the kernel call: %s" % (fname, ast.unparse(st)[:80]))
+            if tgt == "xp":
+                if ast.unparse(v) != "backend.get_array_module(input)":
+                    raise U("xp = %s" % ast.unparse(v))
+                xp_ok = True
+                continue
+            if tgt == "isreal" and _is_call(v, "np", "issubdtype"):
+                skipped.add(tgt)   # stays unknown to the translator: any modelled use raises Unsupported
+                continue
+            if tgt in arrays_w and _is_call(v, tgt, "reshape") and len(v.args) == 1 and not v.keywords:
+                new = ex.lst(v.args[0], T.INT)
+                r = "r%d" % len(reshapes)
+                lets.append("let %s : List Int × List Int := (%s_shape, %s)" % (r, tgt, new))
+                lets.append("let %s_shape : List Int := %s.2" % (tgt, r))
+                reshapes.append(r)
+                continue
+            if tgt == "output" and _is_call(v, "xp", "zeros") and xp_ok and len(v.args) == 1 \
+                    and [(kw.arg, ast.unparse(kw.value)) for kw in v.keywords] == [("dtype", "input.dtype")]:
+                lets.append("let output_shape : List Int := %s" % ex.lst(v.args[0], T.INT))
+                arrays_w.add("output")
+                zeroed.add("output")
+                continue
+            if tgt in arrays_w or tgt in types and types[tgt] in (BC, RLIST) or tgt in ("np", "util", "backend", "kernel"):
+                raise U("%s: assignment %s" % (fname, ast.unparse(st)[:80]))
+            # plain int / shape definitions
+            if isinstance(v, ast.Subscript) and not isinstance(v.slice, (ast.Slice, ast.Tuple)):
+                lets.append("let %s : Int ← pyGet? %s %s" % (T.nm(tgt), ex.lst(v.value, T.INT), ex.int_(v.slice)))
+                types[tgt] = T.INT
+                continue
+            try:
+                s = ex.int_(v)
+                lets.append("let %s : Int := %s" % (T.nm(tgt), s))
+                types[tgt] = T.INT
+            except U as e_int:
+                try:
+                    s = ex.lst(v, T.INT)
+                except U as e_lst:
+                    raise U("%s: `%s` is neither an int (%s) nor a shape (%s)" % (fname, ast.unparse(st)[:80], e_int, e_lst))
+                lets.append("let %s : List Int := %s" % (T.nm(tgt), s))
+                types[tgt] = ILIST
+            continue
+        if isinstance(st, ast.If) and _is_call(st.test, "np", "isscalar") and len(st.test.args) == 1 \
+                and isinstance(st.test.args[0], ast.Name):
+            P = st.test.args[0].id
+            if types.get(P) != BC or call is not None:
+                raise U("%s: np.isscalar(%s)" % (fname, P))
+            branches = []
+            for br, ty in ((st.body, T.RAT), (st.orelse, RLIST)):
+                if not (len(br) == 1 and isinstance(br[0], ast.Assign) and ast.unparse(br[0].targets[0]) == P
+                        and _is_call(br[0].value, "xp", "array") and xp_ok and len(br[0].value.args) == 2
+                        and not br[0].value.keywords and ast.unparse(br[0].value.args[1]) == "coord.dtype"):
+                    raise U("%s: broadcasting branch of %s: %s" % (fname, P, ast.unparse(br[0])[:80] if br else "missing"))
+                types[P] = ty
+                branches.append(ex.lst(br[0].value.args[0], T.RAT))
+            types[P] = RLIST
+            lets.append("let %s : List Rat := match %s with\n    | .scalar %s => %s\n    | .perAxis %s => %s" % (
+                P, P, P, branches[0], P, branches[1]))
+            continue
+        if isinstance(st, ast.If) and ast.unparse(st.test) == "xp == np" and xp_ok and call is None:
+            if len(st.body) != 1 or not (isinstance(st.body[0], ast.Expr) and isinstance(st.body[0].value, ast.Call)):
+                raise U("%s: numpy branch is not a single kernel call" % fname)
+            c = st.body[0].value
+            f = c.func
+            if not (isinstance(f, ast.Subscript) and isinstance(f.value, ast.Subscript) and isinstance(f.value.value, ast.Name)
+                    and isinstance(f.value.slice, ast.Name) and f.value.slice.id == "kernel"
+                    and not isinstance(f.slice, (ast.Slice, ast.Tuple))) or c.keywords:
+                raise U("%s: kernel call %s" % (fname, ast.unparse(c)[:80]))
+            if f.value.value.id != table_name:
+                raise U("%s dispatches through %s, expected %s" % (fname, f.value.value.id, table_name))
+            a = [x.id if isinstance(x, ast.Name) else None for x in c.args]
+            if len(a) != 5 or None in a:
+                raise U("%s: kernel call arguments %s" % (fname, ast.unparse(c)[:80]))
+            # loop nest signature (checked by gen_interp): (output, input, coord, width, param)
+            if a[0] not in zeroed or a[1] != "input" or a[2] != "coord" or a[1] not in arrays_w:
+                raise U("%s: kernel call must write a zero-initialised buffer, read `input`, use `coord`: %s" % (fname, a))
+            if types.get(a[3]) != RLIST or types.get(a[4]) != RLIST:
+                raise U("%s: width/param handed to the kernel before broadcasting: %s" % (fname, a))
+            idx = ex.int_(f.slice)
+            call = (idx, a)
+            lets.append("let sel ← pyGet? (%sTable kernel) %s" % (lean, idx))
+            lets.append("let entries : List (Upd Rat) := sel.1 (shapeFn %s_shape) (shapeFn %s_shape) (shapeFn %s_shape) "
+                        "(arr2 %s_shape %s) (idx1 %s) (idx1 %s)" % (a[0], a[1], a[2], a[2], a[2], a[3], a[4]))
+            lets.append("let kernel_oshape : List Int := %s_shape" % a[0])
+            lets.append("let kernel_ishape : List Int := %s_shape" % a[1])
+            continue
+        raise U("%s: statement %s" % (fname, ast.unparse(st)[:100]))
+    if result is None or call is None:
+        raise U("%s: no kernel call / return found" % fname)
+    if types.get("ndim") != T.INT:
+        raise U("%s: ndim is not defined" % fname)
+    getter, nests = _nest_table(tree, table_name)
+    out = []
+    out.append("/-- generated from `%s` (`return %s`) and the module-level `%s[kernel] = %s(kernel)`:\n"
+               "    the tuple `%s[kernel]` of loop nests with their update kinds -/\n"
+               "def %sTable (kernel : Rat → Rat → Rat) : List (LoopNest × Bool) :=\n  [%s]\n" % (
+                   getter, ", ".join(k for k, v in _NESTS.items() if v in nests), table_name, getter, table_name, lean,
+                   ", ".join("(%s kernel, %s_accumulates)" % (n, n) for n in nests)))
+    params = "(input_shape coord_shape : List Int)" + (" (shape : List Int)" if "shape" in args else "")
+    out.append("/-- generated from `%s`, statement by statement (numpy branch `xp == np`); `none` = Python raises -/\n"
+               "def %sW (kernel : Rat → Rat → Rat) %s (coord : List Rat)\n    (width param : Bc) : Option Wrapped := do\n  %s\n"
+               "  some { ndim := ndim, oshape := kernel_oshape, ishape := kernel_ishape, entries := entries, acc := sel.2,\n"
+               "         reshapes := [%s], resultShape := %s }\n" % (
+                   fname, lean, params, "\n  ".join(lets), ", ".join(reshapes), result))
+    return "\n".join(out)
+
+
+def gen_interp_wrappers(ctx=None):
+    tree = _parse("sigpy/interp.py")
+    out = [W_HEADER % "sigpy/interp.py"]
+    out.append(_wrapper(tree, "interpolate", "interpolate", ["input", "coord", "kernel", "width", "param"], "_interpolate"))
+    out.append(_wrapper(tree, "gridding", "gridding", ["input", "coord", "shape", "kernel", "width", "param"], "_gridding"))
+    out.append("end SigpyVerif.Gen\n")
+    return "\n".join(out)
+
+
 GENERATORS = {
     "InterpKernels": gen_interp_kernels,
     "NufftFormulas": gen_nufft_formulas,
+    "InterpWrappers": gen_interp_wrappers,
 }
